@@ -131,6 +131,76 @@ def render_handler(spec, ctx_text, id_text):
     return "\n".join(out)
 
 
+CMD_VALUES = [  # (nu expression of one value, JSON text the model expects as content)
+    ('"a"', '"a"'), ("2", "2"), ('$"v($env.n)"', '"v{n}"'), ("{k: 1}", '{"k":1}'), ("true", "true")]
+
+
+def render_command(spec, ctx_text):
+    """the configuration script of `<name>.define`"""
+    if spec.get("invalid"):
+        return "{ run: {|frame| "
+    lines = ["{", "  run: {|frame|", "    $env.n = ($env.n? | default 0) + 1"]
+    for a in spec["appends"]:
+        if a.get("ext"):
+            # an external producer writing its output in pieces: a byte stream with short reads
+            sh = "; sleep 0.03; ".join("printf %s" % x for x in a["ext"])
+            lines.append("    ^sh -c %s | .append %s" % (nu_str(sh), a["topic"]))
+        else:
+            lines.append("    " + render_append(a, ctx_text))
+    vals = [v[0] for v in spec["values_nu"]]
+    if spec.get("fail") == "eager":
+        lines.append('    error make {msg: "boom"}')
+    if spec.get("fail") == "mid":
+        k = spec.get("fail_at", 0)
+        items = " ".join(vals) if vals else ""
+        lines.append('    [%s] | enumerate | each {|x| if $x.index == %d { error make {msg: "boom"} } else { $x.item } }' % (items + " 0", k))
+    elif spec.get("shape") == "scalar" and len(vals) == 1:
+        lines.append("    " + vals[0])
+    elif spec.get("shape") == "null":
+        lines.append("    null")
+    else:
+        lines.append("    [%s]" % " ".join(vals))
+    lines.append("  }")
+    ro = []
+    if spec.get("suffix"):
+        ro.append("suffix: %s" % nu_str(spec["suffix"]))
+    if spec.get("ttl"):
+        ro.append("ttl: %s" % nu_str(spec["ttl"]))
+    if ro:
+        lines.append("  return_options: {%s}" % ", ".join(ro))
+    lines.append("}")
+    return "\n".join(lines)
+
+
+def command_model(spec, ctxs):
+    """the model's view of a definition's behaviour"""
+    vals = [v[1] for v in spec.get("values_nu", [])]
+    fail = bool(spec.get("fail"))
+    if spec.get("fail") == "eager":
+        vals = []
+    elif spec.get("fail") == "mid":
+        vals = (vals + ["0"])[:spec.get("fail_at", 0)]
+    elif spec.get("shape") == "null":
+        vals = []
+    apps = []
+    for a in spec.get("appends", []):
+        apps.append({"topic": a["topic"], "meta": a.get("meta"), "ttl": a.get("ttl"),
+                     "ctx": ctxs[a["ctx_ref"]] if a.get("ctx_ref") is not None else None,
+                     "content": "".join(a["ext"]) if a.get("ext") else a.get("content")})
+    return {"values": vals, "fail": fail, "appends": apps}
+
+
+def render_generator(spec):
+    k = spec["kind"]
+    if k == "list":
+        return "[%s] | each {|x| $x}" % " ".join(nu_str(x) for x in spec["strings"])
+    if k == "single":
+        return nu_str(spec["strings"][0])
+    if k == "duplex":
+        return 'each {|x| $x}'
+    return "[] | each {|x| $x}"
+
+
 # ---------------------------------------------------------------------------------------------
 # scenario generator
 
@@ -195,7 +265,88 @@ class Gen:
             ws.append([{"topic": r.choice(TOPICS), "ctx": self.ctx(), "meta": None, "ttl": None} for _ in range(r.randint(2, 6))])
         self.steps.append({"k": "burst", "writers": ws})
 
+    CMD_POOL = None
+
+    def command_spec(self):
+        r = self.r
+        if r.random() < 0.12:
+            return {"invalid": True, "appends": [], "values_nu": []}
+        # a small pool, so that byte-identical definitions turn up under one name in two contexts
+        pool = [
+            {"values_nu": [CMD_VALUES[0], CMD_VALUES[1]], "appends": []},
+            {"values_nu": [CMD_VALUES[2]], "appends": [], "shape": "scalar"},
+            {"values_nu": [], "appends": [], "shape": "null"},
+            {"values_nu": [CMD_VALUES[0], CMD_VALUES[3], CMD_VALUES[4]], "appends": [], "fail": "mid", "fail_at": 1},
+            {"values_nu": [CMD_VALUES[1]], "appends": [], "fail": "eager"},
+            {"values_nu": [CMD_VALUES[2], CMD_VALUES[0]], "appends": [], "suffix": ".r", "ttl": "time:600000"},
+        ]
+        sp = json.loads(json.dumps(r.choice(pool)))
+        if r.random() < 0.4:
+            m = r.choice([None, ('{k: "v"}', [["k", '"v"']]), ('{command_id: "zz", frame_id: "me"}', [["command_id", '"zz"'], ["frame_id", '"me"']])])
+            sp["appends"].append({"topic": r.choice(["out1", "o.x"]), "meta_nu": m[0] if m else None, "meta": m[1] if m else None,
+                                  "ttl": r.choice([None, "forever"]), "ctx_ref": r.choice([None, None, r.randint(0, self.nctx)]),
+                                  "content": r.choice([None, "c", "c{n}"])})
+        if r.random() < 0.25:
+            sp["appends"].append({"topic": "ext", "ext": r.choice([["aaa", "bbb"], ["x", "y", "z"]]), "meta": None})
+        return sp
+
+    def generator_spec(self):
+        r = self.r
+        k = r.choice(["list", "list", "single", "empty", "duplex", "nocontent"])
+        n = 1 if k == "single" else r.randint(1, 3)
+        return {"kind": k, "strings": [r.choice(["a", "b c", "zz"]) for _ in range(n)] if k in ("list", "single") else []}
+
+    def build_services(self):
+        """commands and generators (C18 / C19): defines, calls (sequential and concurrent), spawns, sends, restarts"""
+        r = self.r
+        cnames, gnames = ["c", "d.e"], ["g", "s.t"]
+        if r.random() < 0.4:
+            for _ in range(r.randint(1, 3)):
+                self.steps.append({"k": "define", "name": r.choice(cnames), "ctx": self.ctx(), "spec": self.command_spec()})
+            self.steps.append({"k": "call", "name": r.choice(cnames), "ctx": self.ctx()})
+        self.steps.append({"k": "serve"})
+        want_gen = self.profile in ("gen", "services")
+        want_cmd = self.profile in ("cmd", "services")
+        spawned = []
+        for _ in range(r.randint(8, 18)):
+            x = r.random()
+            if want_cmd and x < 0.25:
+                self.steps.append({"k": "define", "name": r.choice(cnames), "ctx": self.ctx(), "spec": self.command_spec()})
+                if r.random() < 0.7:
+                    self.steps.append({"k": "settle", "ms": 120})
+            elif want_cmd and x < 0.55:
+                self.steps.append({"k": "call", "name": r.choice(cnames), "ctx": self.ctx()})
+            elif want_cmd and x < 0.65:
+                ws = [[{"topic": r.choice(cnames) + ".call", "ctx": self.ctx(), "meta": None, "ttl": None} for _ in range(r.randint(1, 3))]
+                      for _ in range(r.randint(2, 3))]
+                self.steps.append({"k": "burst", "writers": ws})
+            elif want_gen and x < 0.80 and len(spawned) < 4:
+                name, c = r.choice(gnames), self.ctx()
+                sp = self.generator_spec()
+                self.steps.append({"k": "spawn", "name": name, "ctx": c, "spec": sp})
+                self.steps.append({"k": "settle", "ms": 150})
+                spawned.append((name, c, sp))
+            elif want_gen and x < 0.90 and spawned:
+                name, c, sp = r.choice(spawned)
+                self.n_send = getattr(self, "n_send", 0) + 1
+                self.steps.append({"k": "send", "name": name, "ctx": r.choice([c, c, self.ctx()]), "content": "s%d;" % self.n_send})
+            elif x > 0.93:
+                self.steps.append({"k": "settle"})
+                self.steps.append({"k": "restart"})
+            else:
+                self.step_append()
+        if r.random() < 0.5:
+            self.steps.append({"k": "settle"})
+            self.steps.append({"k": "restart"})
+            if want_cmd:
+                for _ in range(r.randint(1, 3)):
+                    self.steps.append({"k": "call", "name": r.choice(cnames), "ctx": self.ctx()})
+        self.steps.append({"k": "settle", "ms": 400})
+        return {"nctx": self.nctx, "steps": self.steps}
+
     def build(self):
+        if self.profile in ("cmd", "gen", "services"):
+            return self.build_services()
         r = self.r
         history_ok = self.profile != "ttl"
         for _ in range(r.choice([0, 0, 2, 5])):       # a pre-existing history
@@ -313,6 +464,29 @@ def run_impl(sc, keep_dir=False, settle_ms=250):
                 obs = w.call(frame_op("append", st["name"] + ".register", ctx_hex(st["ctx"]), content=text))
                 if isinstance(obs.get("ok"), dict):
                     step_ids[i] = obs["ok"]["id"]
+            elif k == "define":
+                text = render_command(st["spec"], ctx_text)
+                out["scripts"][i] = text
+                obs = w.call(frame_op("append", st["name"] + ".define", ctx_hex(st["ctx"]), content=text))
+                if isinstance(obs.get("ok"), dict):
+                    step_ids[i] = obs["ok"]["id"]
+            elif k == "call":
+                obs = w.call(frame_op("append", st["name"] + ".call", ctx_hex(st["ctx"])))
+                if isinstance(obs.get("ok"), dict):
+                    step_ids[i] = obs["ok"]["id"]
+            elif k == "spawn":
+                sp = st["spec"]
+                meta = {"duplex": True} if sp["kind"] == "duplex" else None
+                if sp["kind"] == "nocontent":
+                    obs = w.call(frame_op("append", st["name"] + ".spawn", ctx_hex(st["ctx"]), meta))
+                else:
+                    text = render_generator(sp)
+                    out["scripts"][i] = text
+                    obs = w.call(frame_op("append", st["name"] + ".spawn", ctx_hex(st["ctx"]), meta, content=text))
+                if isinstance(obs.get("ok"), dict):
+                    step_ids[i] = obs["ok"]["id"]
+            elif k == "send":
+                obs = w.call(frame_op("append", st["name"] + ".send", ctx_hex(st["ctx"]), content=st["content"]))
             elif k == "unregister" and st.get("kill"):
                 # crash between the stored request and the handler's announcement: the process is killed when the
                 # `.unregistered` append begins
@@ -631,4 +805,157 @@ def analyse(sc, res, drv):
                             "why": "the instance's output differs from the model's run over what it was handed",
                             "model": [[x[0], x[2], x[3], x[4]] for x in want_o][:12],
                             "impl": [[x[0], x[2], x[3], x[4]] for x in actual][:12], "model_state": m["state"]})
+        fnd += analyse_commands(sc, res, drv, e, hist, live, known_ids)
+        fnd += analyse_generators(sc, res, drv, e, hist, live, known_ids)
+    return fnd
+
+
+def analyse_commands(sc, res, drv, e, hist, live, known_ids):
+    step_ids = res["step_ids"]
+    defs = []
+    for i, st in enumerate(sc["steps"]):
+        if st["k"] == "define" and i in step_ids:
+            sp = st["spec"]
+            d = {"id": step_ids[i], "name": st["name"], "valid": not sp.get("invalid"), "suffix": sp.get("suffix") or ".recv",
+                 "ttl": sp.get("ttl")}
+            d.update(command_model(sp, res["ctxs"]))
+            defs.append(d)
+    if not defs and not any(st["k"] == "call" for st in sc["steps"]):
+        return []
+    fnd = []
+    ans = drv.ask({"q": "command", "defs": defs, "history": [sframe(f) for f in hist], "live": [sframe(f) for f in live]})
+    want = {x["frame"]: [canon_out(o, known_ids) for o in x["outs"]] for x in ans["outs"]}
+    # what the implementation produced, per causing frame: a call (frame_id) or a rejected definition (command_id alone)
+    got = {}
+    for f in live:
+        m = meta_of(f) or {}
+        if not is_id_text(m.get("command_id")) and "command_id" not in m:
+            continue
+        if is_id_text(m.get("frame_id")):
+            cause = b36_to_hex(m["frame_id"])
+        elif is_id_text(m.get("command_id")):
+            cause = b36_to_hex(m["command_id"])
+        else:
+            continue
+        got.setdefault(cause, []).append(f)
+    all_ids = {f["id"]: f for f in hist + live}
+    for cause in sorted(set(want) | set(got)):
+        w = want.get(cause, [])
+        g = [canon_out(sframe(f), known_ids) for f in got.get(cause, [])]
+        if sorted(map(repr, w)) == sorted(map(repr, g)) and [x for x in w if x[0].endswith((".recv", ".complete", ".error", ".r"))] == \
+                [x for x in g if x[0].endswith((".recv", ".complete", ".error", ".r"))]:
+            # explicit appends are written while the closure runs and may interleave with nothing else of this call;
+            # results and the terminal event must be in order
+            if w == g:
+                continue
+        if w == g:
+            continue
+        cf = all_ids.get(cause)
+        props = ["C19"]
+        if cf is not None and any(x[1] != cf["ctx"] for x in g if x[0].endswith((".recv", ".complete", ".error"))):
+            props.append("C06")
+        if cf is not None and cf in hist and g and not w:
+            why = "a call stored before the restart was executed again"
+        elif not w and g:
+            why = "output for a call that must not run (undefined in the caller's context)"
+            props.append("C06")
+        else:
+            why = "the call's output differs from the model"
+        if e > 0:
+            props.append("C17")
+        for f in got.get(cause, []):
+            if f.get("hash") and f.get("content_present") is False:
+                props.append("C10")
+        if any(a[4] != b[4] for a, b in zip(w, g)) and "C10" not in props and \
+                any(a[0] == b[0] == "ext" and a[4] != b[4] for a, b in zip(w, g)):
+            props.append("C10")
+        fnd.append({"kind": "command", "props": props, "epoch": e, "why": why, "cause": cause[-6:],
+                    "cause_topic": unhx(cf["topic"]) if cf else None,
+                    "model": [[x[0], x[1][-6:], x[2], x[3], x[4]] for x in w][:10],
+                    "impl": [[x[0], x[1][-6:], x[2], x[3], x[4]] for x in g][:10]})
+    return fnd
+
+
+def analyse_generators(sc, res, drv, e, hist, live, known_ids):
+    step_ids = res["step_ids"]
+    specs = {}
+    for i, st in enumerate(sc["steps"]):
+        if st["k"] == "spawn" and i in step_ids:
+            specs[step_ids[i]] = st
+    if not specs:
+        return []
+    fnd = []
+    dup = [sid for sid, st in specs.items() if st["spec"]["kind"] == "duplex"]
+    ans = drv.ask({"q": "generator", "history": [sframe(f) for f in hist], "live": [sframe(f) for f in live], "duplex": dup})
+    acts = ans["startup"] + ans["live"]
+    tasks = {}
+    want_rej = []
+    for a in acts:
+        if "start" in a:
+            tasks.setdefault(a["start"], a)
+        else:
+            want_rej.append(canon_out(a["reject"], known_ids))
+    props_restart = ["C18", "C17"] if e > 0 else ["C18"]
+    # rejections: exactly one `.spawn.error` naming each spawn that cannot be honoured
+    got_rej = []
+    by_src = {}
+    for f in live:
+        m = meta_of(f) or {}
+        if not is_id_text(m.get("source_id")):
+            continue
+        if unhx(f["topic"]).endswith(".spawn.error"):
+            got_rej.append(canon_out(sframe(f), known_ids))
+        else:
+            by_src.setdefault(b36_to_hex(m["source_id"]), []).append(f)
+    strip = lambda l: sorted((x[0], x[1], tuple((k, v) for k, v in x[2] if k != "reason")) for x in l)
+    if strip(want_rej) != strip(got_rej):
+        fnd.append({"kind": "spawn-error", "props": props_restart, "epoch": e, "why": "spawn rejections differ from the model",
+                    "model": [[x[0], x[1][-6:], x[2]] for x in want_rej], "impl": [[x[0], x[1][-6:], x[2]] for x in got_rej]})
+    for sid, fs in by_src.items():
+        if sid not in tasks:
+            fnd.append({"kind": "generator-ghost", "props": props_restart + ["C06"], "epoch": e, "source": sid[-6:],
+                        "why": "frames stamped with a spawn that is not running in this epoch",
+                        "impl": [unhx(f["topic"]) for f in fs][:8]})
+    for sid, a in tasks.items():
+        st = specs.get(sid)
+        if st is None:
+            continue
+        sp = st["spec"]
+        obs = by_src.get(sid, [])
+        got = [canon_out(sframe(f), known_ids) for f in obs]
+        task = {"id": sid, "ctx": a["ctx"], "name": a["name"], "duplex": a["duplex"]}
+        for f in obs:
+            if f.get("hash") and f.get("content_present") is False:
+                fnd.append({"kind": "cas", "props": ["C18", "C10"], "epoch": e, "why": "generator output delivered without its content"})
+        if not obs:
+            fnd.append({"kind": "generator", "props": props_restart, "epoch": e, "source": sid[-6:], "name": a["name"],
+                        "why": "an accepted / restored spawn never started"})
+            continue
+        if a["duplex"]:
+            start = obs[0]
+            m = drv.ask({"q": "lifecycle", "task": task, "stream": [sframe(f) for f in hist + live], "start_id": start["id"], "prefix": ""})
+            # nushell decides how the byte stream is cut into values (chunks are merged, the last one may be held back):
+            # the bytes fed must be the sends' contents, each once, in order
+            fed = m["input"]
+            want_all, want_min = "".join(fed), "".join(fed[:-1])
+            shape_ok = got[:1] == [canon_out(m["frames"][0], known_ids)] and all(x[0] == a["name"] + ".recv" for x in got[1:]) \
+                and all(x[1] == a["ctx"] for x in got)
+            got_bytes = "".join(x[4] or "" for x in got[1:])
+            if not shape_ok or not want_all.startswith(got_bytes) or not got_bytes.startswith(want_min):
+                props = list(props_restart)
+                if any(True for f in live if unhx(f["topic"]) == a["name"] + ".send" and f["ctx"] != a["ctx"]):
+                    props.append("C06")
+                fnd.append({"kind": "generator", "props": props, "epoch": e, "source": sid[-6:], "name": a["name"],
+                            "why": "duplex instance: what it emitted is not the content of the sends of its context, each once, in order",
+                            "model": fed, "impl": [[x[0], x[4]] for x in got][:10]})
+        else:
+            m = drv.ask({"q": "lifecycle", "task": task, "strings": sp["strings"] if sp["kind"] in ("list", "single") else []})
+            one = [canon_out(o, known_ids) for o in m["frames"]]
+            k = len(got) // len(one)
+            want = one * k + one[:len(got) - k * len(one)]
+            # a stop arriving restarts it a second later: what was observed must be whole lifecycles plus a started one
+            if want != got or k < 1:
+                fnd.append({"kind": "generator", "props": props_restart, "epoch": e, "source": sid[-6:], "name": a["name"],
+                            "why": "lifecycle differs from start, one recv per string in order, stop" if want != got else "no complete lifecycle",
+                            "model": [[x[0], x[4]] for x in one], "impl": [[x[0], x[4]] for x in got][:12]})
     return fnd
